@@ -24,12 +24,14 @@ import (
 	"github.com/ucan-wg/go-ucan/did"
 	"github.com/ucan-wg/go-ucan/pkg/command"
 	"github.com/ucan-wg/go-ucan/pkg/container"
+	"github.com/ucan-wg/go-ucan/pkg/meta"
 	"github.com/ucan-wg/go-ucan/pkg/policy"
 	"github.com/ucan-wg/go-ucan/pkg/policy/selector"
 	"github.com/ucan-wg/go-ucan/token"
 	"github.com/ucan-wg/go-ucan/token/delegation"
 	"github.com/ucan-wg/go-ucan/token/invocation"
 
+	"verif/harness/api"
 	"verif/harness/cbor"
 	"verif/harness/chain"
 	"verif/harness/ctr"
@@ -122,6 +124,18 @@ var targets = map[string]target{
 		p.PartialMatch(n)
 		_ = p.String()
 	}, func(cs Case) bool { _, err := cs.Pol.Build(true); return err == nil && len(cs.Pol) > 0 }},
+	"meta.GetEncrypted": {"bytes", func(cs Case) {
+		// a decoded token's metadata is attacker-controlled: reading a value "encrypted" by someone else
+		m := meta.NewMeta()
+		if err := m.Add("k", cs.Bytes); err != nil {
+			return
+		}
+		key := bytes.Repeat([]byte{7}, 32)
+		m.GetEncryptedString("k", key)
+		m.GetEncryptedBytes("k", key)
+		m.ReadOnly().GetEncryptedBytes("k", key[:16])
+		_ = m.String()
+	}, func(cs Case) bool { return len(cs.Bytes) >= 40 }},
 	"Selector.Select": {"selnode", func(cs Case) {
 		s, err := selector.Parse(cs.Sel.Text())
 		if err != nil {
@@ -153,7 +167,7 @@ func innerCBOR(cs Case) [][]byte {
 	}
 	raw := cs.Bytes
 	t := cs.Target
-	if strings.Contains(t, "Json") || targets[t].kind != "bytes" {
+	if strings.Contains(strings.ToLower(t), "json") || targets[t].kind != "bytes" {
 		return nil
 	}
 	if strings.HasSuffix(t, "Base64") {
@@ -327,9 +341,31 @@ func trimStack(stack string) string {
 
 var byteTargets, stringTargets, nodeTargets []string
 
+var jsonTargets = []string{"token.FromDagJson", "delegation.FromDagJson", "invocation.FromDagJson"}
+
 func init() {
 	for _, n := range []string{"token.FromSealed", "token.FromSealedReader", "token.FromDagCbor", "delegation.FromSealed", "invocation.FromSealed", "invocation.FromSealedReader"} {
 		byteTargets = append(byteTargets, n)
+	}
+	byteTargets = append(byteTargets, "meta.GetEncrypted")
+	// every other public decode entry point (harness/api): the less travelled ones too
+	for _, format := range []string{"cbor", "json"} {
+		for _, d := range api.Decoders(format) {
+			d := d
+			if _, have := targets[d.Name]; have {
+				continue
+			}
+			reach := isCBOR
+			if format == "json" {
+				reach = isJSON
+			}
+			targets[d.Name] = target{"bytes", func(cs Case) { d.Bytes(cs.Bytes) }, func(cs Case) bool { return reach(cs.Bytes) }}
+			if format == "json" {
+				jsonTargets = append(jsonTargets, d.Name)
+			} else {
+				byteTargets = append(byteTargets, d.Name)
+			}
+		}
 	}
 	stringTargets = []string{"policy.FromDagJson", "selector.Parse", "command.Parse", "did.Parse+PubKey"}
 	nodeTargets = []string{"token.Inspect+FindTag", "delegation.FromIPLD", "invocation.FromIPLD", "policy.FromIPLD"}
@@ -554,7 +590,7 @@ func targetsFor(art string) []string {
 	case strings.HasPrefix(art, "sealed"):
 		return byteTargets
 	case strings.HasPrefix(art, "json"):
-		return []string{"token.FromDagJson", "delegation.FromDagJson", "invocation.FromDagJson"}
+		return jsonTargets
 	case art == "car":
 		return []string{"container.FromCar", "container.FromCarReader"}
 	case art == "carb64":
@@ -886,6 +922,10 @@ func TestHostileConstants(t *testing.T) {
 			}
 			mutatedProp.One(t, Case{Target: tg, Fam: "constants", Bytes: in})
 		}
+	}
+	for n := 0; n <= 90; n++ {
+		mutatedProp.One(t, Case{Target: "meta.GetEncrypted", Fam: "constants", Bytes: make([]byte, n)})
+		mutatedProp.One(t, Case{Target: "meta.GetEncrypted", Fam: "constants", Bytes: bytes.Repeat([]byte{0xff}, n)})
 	}
 	for _, s := range []string{strings.Repeat("[", 100000), strings.Repeat(`{"a":`, 50000), `{"/":{"bytes":"` + strings.Repeat("A", 100000) + `"}}`, strings.Repeat("9", 5000), `[["==",".a",` + strings.Repeat("9", 400) + `]]`, `[["==",".a",1e400]]`} {
 		stringProp.One(t, Case{Target: "policy.FromDagJson", Fam: "constants", Str: s})
